@@ -530,7 +530,7 @@ func c01Identity(c *eng.Ctx, d *dbInfo) {
 				okk := false
 				how := ""
 				// (i) the db.Caller parameter of a literal passed to serveJSON
-				if prm, isP := o.(*ssa.Parameter); isP && f.Parent() != nil && eng.IsNamed(prm.Type(), "db", "Caller") && passedToServeJSON(f) {
+				if prm, isP := o.(*ssa.Parameter); isP && eng.IsNamed(prm.Type(), "db", "Caller") && passedToServeJSON(f) {
 					okk, how = true, "closure parameter filled by serveJSON"
 				}
 				// (ii) result 0 of s.getIdentity(r)
@@ -576,7 +576,9 @@ func c01Identity(c *eng.Ctx, d *dbInfo) {
 				if !a.Write || !(eng.IsNamed(a.Field.Owner, "db", "Caller") || eng.IsNamed(a.Field.Owner, "audit", "Principal")) {
 					continue
 				}
-				c.Check(f == getIdentity, "R-C01-6", f, a.In.Pos(), "write of "+eng.TypeShort(a.Field.Owner)+"."+a.Field.Name, "identities are built only in getIdentity", "written in "+eng.FName(f))
+				// (getIdentity itself, or a helper called from it alone)
+				inIdentity := f == getIdentity || eng.HelperRoot(f, func(x *ssa.Function) bool { return x == getIdentity }) == getIdentity
+				c.Check(inIdentity, "R-C01-6", f, a.In.Pos(), "write of "+eng.TypeShort(a.Field.Owner)+"."+a.Field.Name, "identities are built only in getIdentity", "written in "+eng.FName(f))
 			}
 		}
 	}
@@ -590,19 +592,37 @@ func c01Identity(c *eng.Ctx, d *dbInfo) {
 		if !ok || !fr.Is("db", "Caller", "Permissions") {
 			return
 		}
-		call, idx := eng.TupleCall(st.Val)
-		okk := false
 		detail := "stored value " + eng.ValStr(st.Val)
-		if call != nil && idx == 0 {
-			cal := eng.Callee(&call.Call)
-			if cal != nil && cal.Origin() != nil && eng.FuncIs(cal.Origin(), "tailscale.com/tailcfg", "UnmarshalCapJSON") && len(call.Call.Args) == 2 {
-				capName, isC := eng.ConstString(call.Call.Args[1])
-				fr2, _, isF := eng.LoadedField(call.Call.Args[0])
-				if isC && (capName == "tailscale.com/cap/secrets" || capName == "https://tailscale.com/cap/secrets") && isF && fr2.Name == "CapMap" {
-					okk = true
-				} else {
-					detail = "capability " + capName + " from " + eng.ValStr(call.Call.Args[0])
+		// the candidates: the value itself, or what a helper of getIdentity
+		// returns there (each alternative of a merged value separately)
+		cands := []ssa.Value{st.Val}
+		if inner, _ := eng.ThroughHelper(st.Val, func(g *ssa.Function) bool { return eng.IsHelper(getIdentity, g) }); inner != nil {
+			cands = []ssa.Value{inner}
+		}
+		if leaves, phis := eng.PhiLeaves(eng.Origin(cands[0])); len(phis) > 0 {
+			cands = nil
+			for _, lf := range leaves {
+				cands = append(cands, lf.Val)
+			}
+		}
+		okk := len(cands) > 0
+		for _, cv := range cands {
+			call, idx := eng.TupleCall(cv)
+			one := false
+			if call != nil && idx == 0 {
+				cal := eng.Callee(&call.Call)
+				if cal != nil && cal.Origin() != nil && eng.FuncIs(cal.Origin(), "tailscale.com/tailcfg", "UnmarshalCapJSON") && len(call.Call.Args) == 2 {
+					capName, isC := eng.ConstString(call.Call.Args[1])
+					fr2, _, isF := eng.LoadedField(call.Call.Args[0])
+					if isC && (capName == "tailscale.com/cap/secrets" || capName == "https://tailscale.com/cap/secrets") && isF && fr2.Name == "CapMap" {
+						one = true
+					} else {
+						detail = "capability " + capName + " from " + eng.ValStr(call.Call.Args[0])
+					}
 				}
+			}
+			if !one {
+				okk = false
 			}
 		}
 		c.Check(okk, "R-C01-6", getIdentity, in.Pos(), eng.InstrStr(in), "Permissions = UnmarshalCapJSON[acl.Rule](who.CapMap, \"tailscale.com/cap/secrets\" | \"https://\"+same)", detail)
@@ -614,7 +634,7 @@ func c01Identity(c *eng.Ctx, d *dbInfo) {
 func passedToServeJSON(f *ssa.Function) bool {
 	par := f.Parent()
 	if par == nil {
-		return false
+		return methodHandedToServeJSON(f)
 	}
 	found := false
 	eng.Instrs(par, func(in ssa.Instruction) {
@@ -640,4 +660,61 @@ func passedToServeJSON(f *ssa.Function) bool {
 		}
 	})
 	return found
+}
+
+
+// methodHandedToServeJSON: f is a declared method whose only use in the
+// module is as a method value handed to serveJSON as the handler function
+// (the same role a function literal plays there).
+func methodHandedToServeJSON(f *ssa.Function) bool {
+	if curProg == nil || f.Signature.Recv() == nil {
+		return false
+	}
+	p := curProg
+	sj := anchor(p, "server", "serveJSON")
+	if sj == nil {
+		return false
+	}
+	handed := false
+	for _, g := range p.PkgFuncs("server") {
+		eng.Instrs(g, func(in ssa.Instruction) {
+			call, ok := in.(*ssa.Call)
+			if !ok {
+				return
+			}
+			cal := eng.Callee(&call.Call)
+			if cal == nil || (cal != sj && cal.Origin() != sj) {
+				return
+			}
+			for _, a := range call.Call.Args {
+				if mc, ok := eng.Origin(a).(*ssa.MakeClosure); ok {
+					if fn, isF := mc.Fn.(*ssa.Function); isF && eng.Unwrap(fn) == f && fn != f {
+						handed = true
+					}
+				}
+			}
+		})
+	}
+	if !handed {
+		return false
+	}
+	for _, e := range p.CallGraph().CallersOf(f) {
+		if e.Kind == "static" {
+			return false // also called directly: then it is not only a handler
+		}
+	}
+	return true
+}
+
+// handlerParams returns the request and identity parameters of a serveJSON
+// handler (a literal, or a method with its receiver first).
+func handlerParams(f *ssa.Function) (req, id *ssa.Parameter) {
+	ps := f.Params
+	if f.Signature.Recv() != nil && len(ps) > 0 {
+		ps = ps[1:]
+	}
+	if len(ps) < 2 {
+		return nil, nil
+	}
+	return ps[0], ps[1]
 }
